@@ -4,6 +4,10 @@
 (*   send  {op, id, session, script}  the client wrote a request             *)
 (*   recv  {id, session, kind, text, status}  the client read a message      *)
 (*   reset                           a new connection / scenario begins      *)
+(*   end                             the client has waited for every request *)
+(*                                   it sent to be answered and the line is  *)
+(*                                   quiet: the server must have nothing     *)
+(*                                   left to do (Quiescent)                  *)
 (* Only these are logged; every server step (reader, workers, flushers) is   *)
 (* silent and TLC searches for an interleaving that explains the log.  The   *)
 (* writer step is exactly the delivery that a recv event observes.           *)
@@ -52,6 +56,18 @@ TraceReset ==
   /\ intrSeen' = [s \in Sessions |-> FALSE]
   /\ l' = l + 1
 
+\* Nothing is left to do: no request waits anywhere and every message has been delivered.  A session that
+\* was closed may still be spinning in a loop nobody can interrupt any more (a close or interrupt handled
+\* between dispatch and the worker's flag reset is wiped, by design), with whatever was queued behind it.
+SpinsForever(s) == s \notin live /\ wk[s].st = "running" /\ ~flag[s] /\ wk[s].script[wk[s].pc].k \in {"loop", "loopout"}
+Quiescent ==
+  /\ inq = <<>> /\ chan = <<>>
+  /\ \A s \in Sessions : SpinsForever(s) \/ (wk[s].st = "idle" /\ queue[s] = <<>> /\ ~flusher[s])
+TraceEnd ==
+  /\ l <= Len(Rec) /\ Rec[l].ev = "end"
+  /\ Quiescent
+  /\ l' = l + 1 /\ UNCHANGED vars
+
 Silent ==
   /\ \/ Reader
      \/ \E s \in Sessions : \/ WorkerDequeue(s) \/ WorkerResetFlag(s) \/ WorkerStep(s) \/ FlushOut(s) \/ FlushErr(s)
@@ -60,7 +76,7 @@ Silent ==
 
 \* (TLC's depth-first queue explores the successor generated last first: logged
 \* events come last so that they are tried before further silent steps)
-TraceNext == Silent \/ TraceReset \/ TraceSend \/ TraceRecv
+TraceNext == Silent \/ TraceEnd \/ TraceReset \/ TraceSend \/ TraceRecv
 
 \* remember the longest explained prefix; bound what a printing loop may accumulate
 Progress ==
